@@ -153,6 +153,52 @@ def scenario(chk, label, D, params, bij, v0, entry):
     return obs
 
 
+def chain_scenario(chk, first):
+    """a transformed variable transformed again: x ~ Uniform(low, high); t1 = x.transform(<first>); t2 = t1.transform(Scale(2)).
+    x must remain the image of the NEW free variable t2 under the composed map, and t2 carries the density"""
+    import liesel.goose as gs
+    import liesel.model as lsl
+    tfd, tfb = tf()
+    low, high = lsl.Var(-1.0, name="p_low"), lsl.Var(2.0, name="p_high")
+    x = lsl.param(0.5, lsl.Dist(tfd.Uniform, low=low, high=high), name="x")
+    t1 = x.transform(None) if first == "default" else x.transform(tfb.Sigmoid, low=low, high=high)
+    t2 = t1.transform(tfb.Scale(2.0))
+    model = lsl.GraphBuilder().add(x).build_model()
+    name = f"Uniform / {first} bijector, then Scale(2) on the transformed variable"
+    tname = t2.name
+    problems = [f"variable {v} missing from the built model" for v in ("x", t1.name, tname) if v not in model.vars]
+    if problems:
+        chk.violation(f"{name}:structure", f"[{name}] " + "; ".join(problems), dict(reproduced=True, observed=dict(problems=problems, variables=sorted(model.vars)), note="read off the built model"))
+        return []
+    iface = gs.LieselInterface(model)
+    st = model.state
+    t0 = jnp.asarray(np.asarray(model.vars[tname].value, dtype=np.float32))
+
+    def f(t, lo, hi):
+        new = iface.update_state({tname: t, "p_low": lo, "p_high": hi}, st)
+        base = tfd.Uniform(lo, hi)
+        b1 = base.experimental_default_event_space_bijector() if first == "default" else tfb.Sigmoid(low=lo, high=hi)
+        b2 = tfb.Scale(2.0)
+        u = b2.forward(t)
+        return dict(x=new["x_value"].value, lp=new[f"{tname}_log_prob"].value, ref_x=b1.forward(u),
+                    ref_lp=base.log_prob(b1.forward(u)) + b1.forward_log_det_jacobian(u) + b2.forward_log_det_jacobian(t), lprior=new["_model_log_prior"].value)
+    tag = "chain" + first
+    ts, los, his = z3.Real(f"t_{tag}"), z3.Real(f"lo_{tag}"), z3.Real(f"hi_{tag}")
+    sc = lambda v: np.array(v, dtype=object).reshape(())
+    enc = chk.note_enc(Enc(f"transformed model[{name}]", f, (t0, -1.0, 2.0), (sc(ts), sc(los), sc(his)),
+                           domain={f"t_{tag}": (float(t0) - 0.4, float(t0) + 0.4), f"lo_{tag}": (-1.2, -0.8), f"hi_{tag}": (1.6, 2.4)}))
+    hyps = [los < his]
+    sch = ("pos", "inv", "unit", "recip")
+    tol = z3.RealVal("1/100000")
+    obs = [Obligation(f"[{name}] original variable = image of the new free variable under the composed bijectors", [enc], lambda V: (hyps, all_eq(V.out["x"], V.out["ref_x"])),
+                      signature=f"{name}:value", schemas=sch, timeout_s=60),
+           Obligation(f"[{name}] the new variable's log-density = log p(b1(b2(t))) + log|db1| + log|db2|, and it is the model's prior term", [enc],
+                      lambda V: (hyps, z3.And(cells(V.out["lp"])[0] - cells(V.out["ref_lp"])[0] <= tol, cells(V.out["lp"])[0] - cells(V.out["ref_lp"])[0] >= -tol,
+                                              cells(V.out["lprior"])[0] == cells(V.out["lp"])[0])), signature=f"{name}:density", schemas=sch, timeout_s=60)]
+    chk.validate(enc)
+    return obs
+
+
 def main():
     chk = Check("C14")
     obs = []
@@ -163,6 +209,11 @@ def main():
             res = chk.guarded(f"{label}/{entry}:trace", f"[{label} via {entry}] building and tracing the transformed model", scenario, chk, label, D, params, bij, v0, entry)
             if res:
                 obs += res
+    for first in ("default", "class"):
+        fam.append(f"Uniform / {first} bijector, then Scale(2) on the transformed variable")
+        res = chk.guarded(f"chain:{first}:trace", f"[chained transformation, first = {first}] building and tracing", chain_scenario, chk, first)
+        if res:
+            obs += res
     chk.run(obs)
     # pairs whose identity needs more than the instantiated axioms are reported as skipped, never as passed
     keep = []
